@@ -2,9 +2,11 @@ from props_common import COMMON_TRUSTED
 
 CONFIG = {
     "areas": ["fuzz", "auth"],
-    "lean": ["VProps.C18"],
-    "sources": ["VProps/C18.lean", "VModel/Json.lean", "VModel/Auth.lean", "VModel/Event.lean"],
-    "theorems": ["V.C18.version_table_total", "V.C18.version_table_keys", "V.C18.compact_no_panic", "V.C18.canonical_no_panic"],
+    "lean": ["VProps.C18", "VProps.C02", "VProps.C06", "VProps.C07", "VProps.C14", "VProps.C17"],
+    "sources": ["VProps/C18.lean", "VModel/Json.lean", "VModel/Auth.lean", "VModel/Event.lean", "VProps/C02.lean", "VProps/C06.lean", "VProps/C07.lean", "VProps/C14.lean", "VProps/C17.lean"],
+    "theorems": ["V.C18.version_table_total", "V.C18.version_table_keys", "V.C18.compact_no_panic", "V.C18.canonical_no_panic",
+                 # no-panic theorems of the other models (each states that the panic sites of that model are unreachable)
+                 "V.C02.sign_never_panics", "V.C06.no_panic", "V.C07.no_panic_allowed", "V.C14.collect_no_panic", "V.C17.splitID_no_panic"],
     "rule": "every public entry point reachable with remote data (untrusted / trusted / headered event parsing + all accessors + signature "
             "check + Allowed + orderings + both state-resolution entry points + Redact on accepted events; CanonicalJSON / EnforcedCanonicalJSON "
             "/ SignJSON / VerifyJSON / ListKeyIDs; key responses + CheckKeys; Authorization headers + VerifyHTTPRequest; identifiers and base64; "
